@@ -101,6 +101,28 @@ func (r *transport) superseded(id string, identity entryIdentity, req *http.Requ
 	return err != nil || identityOf(current) != identity
 }
 
+// writeCondition returns the condition under which the outcome of a validation
+// may be written, to be checked in one step with the write. A 304 is about the
+// entry that was looked up before the origin was asked: the freshened entry is
+// written only if that entry is still the one that is stored. A full reply
+// replaces whatever is stored - unless that was requested later than this
+// reply (a reload overtook a slow validation): the newer one stays.
+func (r *transport) writeCondition(
+	resp *http.Response,
+	id string,
+	identity entryIdentity,
+	requestedAt time.Time,
+	req *http.Request,
+) func() bool {
+	if resp.StatusCode == http.StatusNotModified {
+		return func() bool { return !r.superseded(id, identity, req) }
+	}
+	return func() bool {
+		current, err := r.cache.Get(id, req)
+		return err != nil || !current.RequestedAt.After(requestedAt)
+	}
+}
+
 // entryIdentity tells two responses stored under one id apart.
 type entryIdentity struct {
 	requestedAt, receivedAt  int64
@@ -460,11 +482,8 @@ revalidate:
 
 		ClientRequest: clientReq,
 	}
-	if err == nil && resp.StatusCode == http.StatusNotModified {
-		// Freshening writes the entry that was looked up before the origin
-		// was asked: only if it is still the one that is stored.
-		identity := identityOf(stored)
-		ctx.Unchanged = func() bool { return !r.superseded(stored.ID, identity, req) }
+	if err == nil {
+		ctx.Unchanged = r.writeCondition(resp, stored.ID, identityOf(stored), start, req)
 	}
 	return r.vrh.HandleValidationResponse(ctx, req, resp, err)
 }
@@ -603,11 +622,8 @@ func (r *transport) backgroundRevalidate(
 
 			ClientRequest: clientReq,
 		}
-		if resp.StatusCode == http.StatusNotModified {
-			// (as in handleCacheHit: the check is one step with the write-back)
-			id := stored.ID
-			revalCtx.Unchanged = func() bool { return !r.superseded(id, identity, req) }
-		}
+		// (as in handleCacheHit: the check is one step with the write)
+		revalCtx.Unchanged = r.writeCondition(resp, stored.ID, identity, start, req)
 		out, err := r.vrh.HandleValidationResponse(revalCtx, req, resp, nil)
 		if out != nil && out != resp && out.Body != nil {
 			_ = out.Body.Close()
